@@ -41,7 +41,13 @@ def run_method(ctx, name, argv, st=None, may_raise=True, truths=None):
     tfr = classes.get(REAL, TFR)
     owner, f = classes.resolve_method(tfr, name)
     made = None
-    if not isinstance(f, FUNC_TYPES) or owner is None or owner.external:
+    prop = ObjectDomain(classes)._declared_property(tfr, name)
+    if prop is not None and isinstance(prop[0], FUNC_TYPES):
+        owner, f = tfr, prop[0]   # a property (either spelling): reading it runs its getter
+    elif prop is not None and isinstance(prop[0], tuple) and prop[0][:1] == ("made",):
+        made = (prop[0][1], prop[0][2])   # ... a getter made by an expression (a factory, a lambda, an attrgetter)
+        f = made[1]
+    elif not isinstance(f, FUNC_TYPES) or owner is None or owner.external:
         # not a def: a method made in the class body (name = factory(...)) -- the class-body expression is evaluated and what it gives is called on self
         made = ObjectDomain(classes)._class_attr_expr(tfr, name)
         if made is None:
@@ -77,7 +83,10 @@ def run_method(ctx, name, argv, st=None, may_raise=True, truths=None):
         if r.kind == "exc":
             out.append(r)
             continue
-        out.extend(dom.apply(it, r.value, [("self",)] + list(argv.values()), [], r.state, fr))
+        callee = r.value
+        if isinstance(callee, tuple) and callee[:1] == ("property",) and not argv:
+            callee = callee[1]   # a property object made by a helper: reading the attribute calls its getter
+        out.extend(dom.apply(it, callee, [("self",)] + list(argv.values()), [], r.state, fr))
     ctx.stats["states"] += it.steps
     for fn_ in it.functions:
         ctx.analysed(fn_)
